@@ -39,11 +39,11 @@ def clean(out):
     return "\n".join(l for l in out.splitlines() if not NOISE.search(l))
 
 
-def worktree(path):
+def worktree(path, base="HEAD"):
     if os.path.exists(path):
         sh(f"git -C /repo worktree remove --force {path}")
         shutil.rmtree(path, ignore_errors=True)
-    rc, out = sh(f"git -C /repo worktree add --detach {path} HEAD")
+    rc, out = sh(f"git -C /repo worktree add --detach {path} {base}")
     if rc != 0:
         raise SystemExit(f"cannot create worktree {path}: {out}")
 
@@ -59,6 +59,8 @@ def main():
     ap.add_argument("--skip-checks", action="store_true")
     ap.add_argument("--tier", default="quick")
     ap.add_argument("--seed", default="0")
+    ap.add_argument("--base", default="HEAD", help="commit of /repo the change was written against (default: HEAD); used when a later "
+                                                    "fix: commit removed the very window the change needs")
     a = ap.parse_args()
     name = f"{a.pid}-{a.variant}"
     src = a.src or f"/tmp/seedout/{a.pid}/{a.variant}"
@@ -81,11 +83,13 @@ def main():
             pass
     result.setdefault("checks", {})
     os.makedirs("/tmp/vwt", exist_ok=True)
-    cleanwt = "/tmp/vwt/clean"
+    head = sh(f"git -C /repo rev-parse --short {a.base}")[1].strip()
+    result["base"] = head
+    cleanwt = f"/tmp/vwt/clean_{head}"
     if not os.path.exists(os.path.join(cleanwt, "keras_tuner")):
-        worktree(cleanwt)
+        worktree(cleanwt, head)
     wt = f"/tmp/vwt/{name}"
-    worktree(wt)
+    worktree(wt, head)
     try:
         rc, out = sh(f"git apply {os.path.join(dst, 'patch.diff')}", cwd=wt)
         if rc != 0:
